@@ -317,4 +317,4 @@ def _get_nbits_from_value( value ):
   if value < 0:
     return ceil(log2(abs(value)))
   else:
-    return ceil(log2(value+1))
+    return value.bit_length()
